@@ -56,6 +56,10 @@ where
           return;
         }
       }
+      if !s.is_subscribed() {
+        // the subscriber finished on the value it was just handed (take(1), first(), ..)
+        return;
+      }
 
       let sbsc = Arc::new(RwLock::new(None::<Subscription>));
       {
